@@ -236,13 +236,65 @@ Z0_TYPES = ("ZCh ZChU ZSetCh ZSetCh2 ZSetChOpt ZSeqAsSet ZSetExtV1 ZSetExtV2 ZSe
             "ZUtfSz ZGen ZGraph ZT61 ZVideo ZOd ZBitsFix ZBitsFix20 ZBitsExt ZBitsNamed ZBitsFree "
             "ZFloat ZDouble ZReal ZNull ZBool ZGt ZUt ZOid ZRoid ZAny ZField ZFields").split()
 
-# hand-made DER values where asn_random_fill is not available (ANY / open type inside), and directed INVALID ones
+# ---- hand-made DER values: where asn_random_fill is not available (ANY / open type inside), where it never produces a value that
+# passes the type's own checker (PrintableString / NumericString / ObjectDescriptor contents, and every structure holding one), and a
+# few directed INVALID ones (BER decoding does not look at constraints, so these reach the checkers and encoders as structures)
+
+
+def tlv(tag, *content):
+    """tag: hex string of the identifier octets; content: hex strings / nested tlv() results -> hex string (definite, minimal length)"""
+    body = "".join(content).replace(" ", "")
+    n = len(body) // 2
+    ln = "%02x" % n if n < 128 else "81%02x" % n if n < 256 else "82%04x" % n
+    return tag + ln + body
+
+
+def txt(s):
+    return s.encode("ascii").hex()
+
+
+_STRS_HEAD = [tlv("80", txt("hi")), tlv("81", txt("ia")), tlv("82", txt("Pr 1")), tlv("83", txt("abc")), tlv("84", txt("12 3")),
+              tlv("85", "00610062"), tlv("86", "00000061")]
+_STRS_TAIL = [tlv("89", "04a0"), tlv("8a", "0081"), tlv("8b", "dead"), tlv("8c", txt("20240115103000Z")), tlv("8d", txt("240115103000Z")),
+              tlv("8e", "2a8648"), tlv("8f", "0801"), tlv("90", "800001"), tlv("91")]
+K0_MORE_SEEDS = {
+    "Strs": [tlv("30", *(_STRS_HEAD + _STRS_TAIL)), tlv("30", *(_STRS_HEAD + [tlv("87", txt("g")), tlv("88", txt("t"))] + _STRS_TAIL)),
+             # invalid: NumericString member longer than SIZE(0..5), VisibleString outside FROM("a".."f")
+             tlv("30", *(_STRS_HEAD[:3] + [tlv("83", txt("xyz")), tlv("84", txt("1234567"))] + _STRS_HEAD[5:] + _STRS_TAIL))],
+    "SeqCF": [tlv("30", tlv("80", "32"), tlv("81", txt("abc")), tlv("82", txt("12")), tlv("83", "04a0"), tlv("84", "ff"), tlv("85", "03"),
+                  tlv("86", txt("hi")), tlv("a7", "0101ff"), tlv("88", "07")),
+              tlv("30", tlv("80", "01"), tlv("81", txt("f")), tlv("82"), tlv("83", "00"), tlv("84"), tlv("86", txt("u")), tlv("a7"), tlv("88", "ff")),
+              # invalid: b = 0 outside (1..100); w = 77 outside (0..9); three list elements for SIZE(0..2)
+              tlv("30", tlv("80", "00"), tlv("81", txt("abc")), tlv("82", txt("12")), tlv("83", "04a0"), tlv("84", "ff"), tlv("85", "4d"),
+                  tlv("86", txt("hi")), tlv("a7", "0101ff", "010100", "0101ff"), tlv("88", "07"))],
+}
+# built-in descriptors that get their values only through the closure: give them values that pass their checker, too
+BUILTIN_SEEDS = {
+    "NumericString": [tlv("12", txt("123")), tlv("12", txt("1 2")), tlv("12", txt("12x"))],
+    "PrintableString": [tlv("13", txt("ABc 1")), tlv("13", txt("a*b"))],
+    "ObjectDescriptor": [tlv("07", txt("abc"))],
+}
+
 Z0_SEEDS = {
-    "ZSeqAnyOpt": ["3003020105", "30080201050403616263", "300a020105a1050201070500"],
-    "ZSeqAnyBy": ["30090603550403a00201 07".replace(" ", ""), "300c06032a0304a0050c03616263"],
+    "ZSeqAnyOpt": [tlv("30", "020105"), tlv("30", "020105", tlv("04", txt("abc"))), tlv("30", "020105", tlv("a1", "020107", "0500"))],
+    "ZSeqAnyBy": [tlv("30", tlv("06", "550403"), tlv("a0", "020107")), tlv("30", tlv("06", "2a0304"), tlv("a0", tlv("0c", txt("abc"))))],
     "ZAny": ["020107", "30060201010101ff", "0500"],
-    "ZField": ["3009800101810101820107".replace(" ", ""), "300b 800102 810100 a203 800109".replace(" ", ""), "300a 800104 810100 a203 0101ff".replace(" ", "")],
-    "ZFields": ["3000", "300b3009800101810101820107"],
+    # ZField ::= SEQUENCE { id INTEGER, crit ENUMERATED, val <open type selected by id> }   (IMPLICIT TAGS module, no tags written)
+    "ZField": [tlv("30", "020101", "0a0101", "020107"), tlv("30", "020102", "0a0100", "800109"),
+               tlv("30", "020103", "0a0102", tlv("31", "800101", "830105")), tlv("30", "020104", "0a0100", tlv("31", "0101ff", "010100")),
+               # invalid: ZI8 value 300 for ID 1
+               tlv("30", "020101", "0a0101", "0202012c")],
+    "ZFields": ["3000", tlv("30", tlv("30", "020101", "0a0101", "020107"), tlv("30", "020102", "0a0100", "800109"))],
+    "ZNumFree": [tlv("12", txt("0123 4")), tlv("12", txt("9"))],
+    "ZPrAlpha": [tlv("13", txt("1ab")), tlv("13", txt("0")), tlv("13", txt("zzz"))],
+    "ZUtfSz": [tlv("0c", txt("ab")), tlv("0c", "c3a9"), tlv("0c", txt("toolong"))],
+    "ZOd": [tlv("07", txt("descr"))],
+    # a SET whose mandatory members are missing / doubled, and one with an unknown member (not extensible): decoder failure paths
+    "ZSetCh": [tlv("31", "800101", "830105"), tlv("31", "830105", "820101ff", tlv("81", txt("y"))), tlv("31", "830105"), tlv("31", "800101", "800102", "830105"),
+               tlv("31", "800101", "830105", "9f2a0100")],
+    "ZSetExtV1": [tlv("31", "800105"), tlv("31", "800105", "8101ff", "9f630101", tlv("bf64", "020101"))],
+    "ZSeqExtV1": [tlv("30", "800105"), tlv("30", "800105", "8101ff", "8201ff", tlv("a6", "800101"), "9f630101")],
+    "ZChExtV1": ["800105", "9f630101", tlv("bf64", "020101")],
 }
 
 # type -> types whose encodings are ALSO decoded as this type (then checked, printed and re-encoded in every syntax)
